@@ -12,9 +12,12 @@ def perm(rng, alts):
 
 def alt_ids(rng, m, style=None, zero_ok=False):
     """m distinct positive ids: 1..m, shifted, or sparse/multi-digit (with zero_ok: sometimes 0..m-1)."""
-    style = style or rng.choice(["1m", "1m", "shift", "sparse"] + (["0m"] if zero_ok else []))
+    style = style or rng.choice(["1m", "1m", "1m", "shift", "shift", "sparse", "sparse", "huge"] + (["0m"] * 2 if zero_ok else []))
     if style == "0m":
         return list(range(0, m))
+    if style == "huge":
+        base = rng.choice([10 ** 6, 2 ** 31 - 2, 2 ** 62, 10 ** 18])   # all below 2**63: numpy int64 arrays are a documented input type
+        return sorted(rng.sample(range(base, base + 5 * m + 5), m))
     if style == "1m":
         return list(range(1, m + 1))
     if style == "shift":
@@ -169,3 +172,23 @@ def shrink_profile_case(case):
                 if "type" in case:
                     c2["type"] = infer_type([tuple(tuple(c) for c in o) for o, _ in p2], len(c2["alts"]))
                 yield c2
+
+
+def grown_instance(profile, alts, expected_type, warm):
+    """The instance built through the public API in two stages on ONE object: add the first ballots,
+    run `warm(inst)` (e.g. query it once), add the rest.  Returns None when the API-built instance
+    would not have the intended data type or alternative set (then the caller builds it directly)."""
+    from preflibtools.instances import OrdinalInstance
+    if len(profile) < 2:
+        return None
+    inst = OrdinalInstance()
+    cut = max(1, len(profile) // 2)
+    inst.append_vote_map({tuple(tuple(c) for c in o): m for o, m in profile[:cut]})
+    try:
+        warm(inst)
+    except Exception:
+        pass
+    inst.append_vote_map({tuple(tuple(c) for c in o): m for o, m in profile[cut:]})
+    if inst.data_type != expected_type or set(inst.alternatives_name) != set(alts):
+        return None
+    return inst
